@@ -336,6 +336,9 @@ func readRules(c *Ctx) {
 			},
 		})
 		base.H.Call = errFork(base)
+		// helpers split off getBlobResponse are interpreted in place (getBlobData is a data source
+		// the rule models itself)
+		base.AutoInline = localHelpers(c.P, "/server", "server.(*grpcServer).getBlobData")
 		x := NewExec(c.P.FlowOf(fi), base)
 		x.Run(newSt())
 		R.Check(n >= 2, "R02c", c.Cfg+"getBlobResponse:labels", "", "both compressor labels are assigned", fmt.Sprintf("found %d", n))
